@@ -617,6 +617,8 @@ def run(ctx):
     ctx.note("edges", len(edges))
     if len(edges) < 100:
         raise core.MachineryError(f"edge dump too small ({len(edges)})")
+    core.edge_label_coverage(ctx, edges, lambda e: "+".join(k for k in ("conn", "close", "hb", "ack", "rej") if e["m"]["f"].get(k)) + "/" + str(e["m"].get("payload")),
+                             "hstrp", 10)
     with open(os.path.join(ctx.rundir, "MC_HSTRPLoop_run.cfg"), "w") as f:
         f.write(LOOPCFG.format(inject=2 if ctx.quick else 3))
     res2 = core.run_tlc(ctx, "MC_HSTRPLoop", "MC_HSTRPLoop_run.cfg", timeout=1200, workers=8)
